@@ -443,6 +443,20 @@ thread_local! {
     static SETTLE_MS: std::cell::Cell<u64> = const { std::cell::Cell::new(0) };
 }
 
+thread_local! {
+    static WIRES: std::cell::RefCell<Option<[Wire; 2]>> = const { std::cell::RefCell::new(None) };
+}
+
+/// `wires A=<items sent>/<delivered> B=<sent>/<delivered>`
+fn log_wires() {
+    WIRES.with(|c| {
+        if let Some(w) = c.borrow().as_ref() {
+            let (a, b) = (w[0].counts(), w[1].counts());
+            tr(format!("wires A={}/{} B={}/{}", a.0, a.1, b.0, b.1));
+        }
+    });
+}
+
 async fn settle(ops: &Ops) {
     let ms = SETTLE_MS.with(|c| c.get());
     if ms == 0 {
@@ -450,6 +464,7 @@ async fn settle(ops: &Ops) {
     } else {
         tokio::time::sleep(Duration::from_millis(ms)).await;
     }
+    log_wires();
     tr(format!("settled t={} pending={}", now_ms(), ops.pending_list()));
 }
 
@@ -460,6 +475,7 @@ async fn advance(ops: &Ops, wires: &[Wire; 2], ms: u64) {
     }
     tokio::time::sleep(Duration::from_millis(ms)).await;
     tr(format!("time {}", now_ms()));
+    log_wires();
     tr(format!("settled t={} pending={}", now_ms(), ops.pending_list()));
 }
 
@@ -514,8 +530,12 @@ async fn scenario(v: &Variant, fault: Option<(char, u64, String)>) {
     let ops = Ops { pending: Arc::new(Mutex::new(BTreeSet::new())) };
     let wires = [Wire::new('A', 'B'), Wire::new('B', 'A')];
     for w in &wires {
-        w.0.lock().unwrap().budget = 100_000;
+        // the items themselves are not logged (C09 checks the wire format); `wires` lines carry the counters
+        let mut w = w.0.lock().unwrap();
+        w.budget = 100_000;
+        w.quiet = true;
     }
+    WIRES.with(|c| *c.borrow_mut() = Some([wires[0].clone(), wires[1].clone()]));
     if let Some((wire, at, kind)) = &fault {
         let i = if *wire == 'A' { 0 } else { 1 };
         let fk = match kind.as_str() {
@@ -910,8 +930,12 @@ async fn scenario(v: &Variant, fault: Option<(char, u64, String)>) {
     }
     settle(&ops).await;
     advance(&ops, &wires, v.ta + v.tb + 200).await;
+    // the read guard the script itself holds is released: what follows must not wait for the script
+    hold_release.notify_one();
+    settle(&ops).await;
 
     // ---- calls started after the failure
+    tr(format!("cutrange A={} B={}", wires[0].counts().0, wires[1].counts().0));
     tr("phase later".into());
     if let Some(a) = &mut a {
         ops.mpsc_send("l1a", 'A', "m1", "a", &a.m1_tx, 3);
@@ -998,7 +1022,7 @@ async fn scenario(v: &Variant, fault: Option<(char, u64, String)>) {
         });
     }
     settle(&ops).await;
-    hold_release.notify_waiters();
+    hold_release.notify_one();
     // hang detector: nothing may be left that a later timer could still wake
     pump_on.store(false, std::sync::atomic::Ordering::Relaxed);
     advance(&ops, &wires, 3_600_000).await;
@@ -1056,9 +1080,13 @@ fn main() {
                 let base = run(&v, None);
                 // cut points: every item put on a wire before the calls of the `later` phase start (what follows
                 // is an hour of keep-alive pings)
-                let upto = base.iter().position(|l| l == "phase later").unwrap_or(base.len());
-                let count =
-                    |side: &str| base[..upto].iter().filter(|l| l.starts_with(&format!("tx {side} "))).count() as u64;
+                let count = |side: &str| -> u64 {
+                    base.iter()
+                        .find(|l| l.starts_with("cutrange "))
+                        .and_then(|l| l.split_whitespace().find_map(|t| t.strip_prefix(&format!("{side}=")).map(|v| v.to_string())))
+                        .and_then(|v| v.parse().ok())
+                        .unwrap_or(0)
+                };
                 let (fa, fb) = (count("A"), count("B"));
                 eprintln!("STAT baseline_items_A {fa}");
                 eprintln!("STAT baseline_items_B {fb}");
